@@ -140,10 +140,12 @@ def gen_checks(summary):
         t += 'end Blf.Gen\n'
         write_if_changed(os.path.join(GEN, 'K%d.lean' % j), t)
     exact = [c['name'] for c in summary['classes'] if res.get(c['name'])]
-    t = ''.join('import Blf.Gen.K%d\n' % j for j in range(nch)) + 'import Blf.Gen.All\n'
+    t = ''.join('import Blf.Gen.K%d\n' % j for j in range(nch)) + 'import Blf.Gen.All\nimport Blf.FileRound\n'
     t += '/-! generated: the classes whose regenerated programs pass `regularCheck` -/\nnamespace Blf.Gen\nopen Blf\n\n'
     t += 'def exactLayouts : List (Codec × Layout) := [' + ', '.join('(%s, %s_layout)' % (n, n) for n in exact) + ']\n\n'
     t += 'theorem exact_all : (exactLayouts.all fun p => regularCheck p.1 p.2) = true := by decide +kernel\n\n'
+    t += '/-- every exactly-framed layout begins with the base header and its pre-processing leaves the type code alone -/\n'
+    t += 'theorem exact_hdr : (exactLayouts.all fun p => FileRound.hdrCheck p.2) = true := by decide +kernel\n\n'
     # a concrete non-trivial object for the non-vacuity examples of the property files
     smp = None
     for c in summary['classes']:
